@@ -190,6 +190,12 @@ class ParsedCommand(object):
     def reference_list(self):
         return _reference_list(self._cmd, self._references)
 
+    def replace_ids(self, old, new):
+        """Replace all references to an old ComponentID with references to new."""
+        for tag, cid in self._references.items():
+            if cid is old:
+                self._references[tag] = new
+
     def evaluate(self, data, view=None):
 
         from glue import env
@@ -275,6 +281,10 @@ class ParsedComponentLink(ComponentLink):
 
     def compute(self, data, view=None):
         return self._parsed.evaluate(data, view)
+
+    def replace_ids(self, old, new):
+        super(ParsedComponentLink, self).replace_ids(old, new)
+        self._parsed.replace_ids(old, new)
 
     def __gluestate__(self, context):
         return dict(parsed=context.do(self._parsed),
